@@ -33,6 +33,17 @@ crate::harnesses! {
         assert!(f == (a > room), "flag iff a + b > 2^128 - 1");
         if !f { assert!(r - a == b && r >= a, "exact sum"); } else { assert!(r == a - room - 1, "sum minus 2^128"); }
     }
+    // lemma_u128_lz (unit jebelean): x >= 1  ==>  lz < 128, 2^127 <= x << lz (no bits lost), and lz <= 63 for x >= 2^64
+    fn core_specs_u128_leading_zeros_fact() {
+        let x: u128 = any();
+        assume(x >= 1);
+        let lz = x.leading_zeros();
+        assert!(lz < 128, "leading_zeros of a non-zero u128 is < 128");
+        let y = x << lz;
+        assert!(y >> lz == x, "no bits are lost by x << lz");
+        assert!(y >= (1u128 << 127), "x << lz has the top bit set");
+        if x >= (1u128 << 64) { assert!(lz <= 63, "values of more than 64 bits have at most 63 leading zeros"); }
+    }
     // assume_specification [<i8 as From<bool>>::from] and [core::cmp::min]
     fn core_specs_i8_from_bool_and_min_spec() {
         assert!(i8::from(true) == 1 && i8::from(false) == 0, "i8::from(bool)");
